@@ -293,7 +293,7 @@ func streamC19(h *H) {
 	prealloc := vPreallocWorks()
 	zc := restic.Hash(make([]byte, c19ZeroChunkLen))
 
-	nBatches := h.N(4, 96)
+	nBatches := h.N(4, 48)
 	perBatch := 40
 	for bi := 0; bi < nBatches; bi++ {
 		repo, be := vNewRepo()
